@@ -39,6 +39,7 @@ type C12Expect struct {
 	MustFail string     `json:"must_fail,omitempty"` // name of the terminal failing op, "" if none
 	FailLine int        `json:"fail_line,omitempty"`
 	Ops      []string   `json:"ops"`
+	ReplLine string     `json:"repl_line,omitempty"` // the same program as one interactive line
 }
 
 // key pool: Latin, Bangla, two names that differ only in letter case, and one
@@ -62,6 +63,27 @@ type c12Gen struct {
 }
 
 func (g *c12Gen) add(s string) int { g.lines = append(g.lines, s); return len(g.lines) }
+
+// replLine renders the whole program as ONE interactive line. Expression statements
+// would be echoed at the prompt, so each is wrapped into a declaration (same effect,
+// no echo); comments are dropped.
+func (g *c12Gen) replLine() string {
+	var parts []string
+	n := 0
+	for _, l := range g.lines {
+		t := strings.TrimSpace(l)
+		switch {
+		case t == "" || strings.HasPrefix(t, "//"):
+			continue
+		case strings.HasPrefix(t, KwVar+" "), strings.HasPrefix(t, KwPrint+" "), strings.HasPrefix(t, KwFun+" "), strings.HasPrefix(t, KwFor+" "):
+			parts = append(parts, t)
+		default:
+			n++
+			parts = append(parts, fmt.Sprintf("%s rw%d = (%s);", KwVar, n, strings.TrimSuffix(t, ";")))
+		}
+	}
+	return strings.Join(parts, " ")
+}
 func (g *c12Gen) val() int         { g.nval++; return 100 + g.nval }
 
 // value draws a property value: mostly a unique number, sometimes nil (literal
@@ -71,7 +93,7 @@ func (g *c12Gen) value() (string, C12Val) { return g.valueFor(0) }
 // valueFor draws a value to store into object target (0 = a new object): a
 // reference to an existing object is allowed when it cannot create a cycle.
 func (g *c12Gen) valueFor(target int) (string, C12Val) {
-	k := g.s.Int("valkind", 0, 15)
+	k := g.s.Int("valkind", 0, 16)
 	switch k {
 	case 12:
 		return "0", C12Val{Text: "0"}
@@ -81,6 +103,10 @@ func (g *c12Gen) valueFor(target int) (string, C12Val) {
 		return "wr1", C12Val{Text: "<function wr1>"}
 	case 15:
 		return "[1, 2]", C12Val{Text: "[1 2]"}
+	case 16:
+		g.nval++
+		t := fmt.Sprintf("%d%%d off %%s %%", g.nval)
+		return "\"" + t + "\"", C12Val{Text: t}
 	}
 	if k >= 10 {
 		if len(g.order) > 0 {
@@ -268,7 +294,7 @@ func c12Program(s Src, maxOps int) (string, *C12Expect) {
 		for mi := 0; mi < nmut; mi++ {
 			kind := "literal"
 			if len(g.order) > 0 {
-				kind = Pick(s, "op", []string{"literal", "literal", "alias", "write-new", "write-existing", "write-existing", "delete", "delete", "fn-write", "fn-write-ret", "array-alias", "child", "child2", "child-write", "arr-prop", "arr-prop-write", "write-negzero", "mk-twice", "fn-delete", "empty-literal", "read", "rewrite-literal"})
+				kind = Pick(s, "op", []string{"literal", "literal", "alias", "write-new", "write-existing", "write-existing", "delete", "delete", "fn-write", "fn-write-ret", "array-alias", "child", "child2", "child-write", "arr-prop", "arr-prop-write", "write-negzero", "write-rebinding", "chain-write", "mk-twice", "fn-delete", "empty-literal", "read", "rewrite-literal"})
 			}
 			opName := kind
 			switch kind {
@@ -388,6 +414,33 @@ func c12Program(s Src, maxOps int) (string, *C12Expect) {
 				g.add(fmt.Sprintf("%s.%s = %s;", v, k, first))
 				g.add(fmt.Sprintf("%s.%s = %s;", v, k, second))
 				g.heap[g.vars[v]][k] = C12Val{Text: second}
+			case "write-rebinding":
+				// a.k = (a = b): the object is looked up before the right-hand side rebinds a
+				a, b := g.pickVar("a"), g.pickVar("b")
+				ida, idb := g.vars[a], g.vars[b]
+				if a == b || ida == idb || g.reaches(idb, ida) {
+					opName = "noop"
+					g.add("// nothing to rebind")
+					break
+				}
+				g.tmp++
+				al := fmt.Sprintf("al%d", g.tmp)
+				g.add(fmt.Sprintf("%s %s = %s;", KwVar, al, a))
+				g.order = append(g.order, al)
+				g.vars[al] = ida
+				k := Pick(s, "key", c12Keys)
+				g.add(fmt.Sprintf("%s.%s = (%s = %s);", a, k, a, b))
+				g.heap[ida][k] = C12Val{Ref: idb}
+				g.vars[a] = idb
+			case "chain-write":
+				// a.k1 = b.k2 = v: both properties receive the value
+				a, b := g.pickVar("a"), g.pickVar("b")
+				k1, k2 := Pick(s, "key", c12Keys), Pick(s, "key2", c12Keys)
+				val := g.val()
+				g.tmp++
+				g.add(fmt.Sprintf("%s ch%d = (%s.%s = %s.%s = %d);", KwVar, g.tmp, a, k1, b, k2, val))
+				g.heap[g.vars[b]][k2] = C12Val{Num: val}
+				g.heap[g.vars[a]][k1] = C12Val{Num: val}
 			case "arr-prop":
 				p, c := g.pickVar("parent"), g.pickVar("childv")
 				pid, cid := g.vars[p], g.vars[c]
@@ -519,7 +572,7 @@ func c12Program(s Src, maxOps int) (string, *C12Expect) {
 		mustFail = kind
 	}
 	g.add(fmt.Sprintf("%s \"@DONE\";", KwPrint))
-	return strings.Join(g.lines, "\n") + "\n", &C12Expect{Blocks: g.blocks, MustFail: mustFail, FailLine: failLine, Ops: g.ops}
+	return strings.Join(g.lines, "\n") + "\n", &C12Expect{Blocks: g.blocks, MustFail: mustFail, FailLine: failLine, Ops: g.ops, ReplLine: g.replLine()}
 }
 
 func c12Case(s Src, tier string, nsched int) *Case {
@@ -541,6 +594,10 @@ func c12Case(s Src, tier string, nsched int) *Case {
 		rev.Orders = append(rev.Orders, -1)
 	}
 	cs.Runs = append(cs.Runs, Run{Role: "reverse", Cfg: rev})
+	// the same operations typed as one line at the interactive prompt
+	rc := replCfg(ex.ReplLine + "\n")
+	rc.Orders = rev.Orders
+	cs.Runs = append(cs.Runs, Run{Role: "repl-one-line", Cfg: rc})
 	for i := 0; i < nsched; i++ {
 		c := base
 		c.Orders = drawOrders(s, nranges)
@@ -573,6 +630,8 @@ func c12Cyclic() []*Case {
 		{"self", fmt.Sprintf("%s o = {alpha: 1};\no.self = o;\n%s \"@P\";\n%s o;\n%s o.self.self.alpha;\n%s %s(o);\n%s \"@DONE\";\n", KwVar, P, P, P, P, FnKeys, P), []string{"alpha:", "self:"}},
 		{"mutual", fmt.Sprintf("%s p = {beta: 2};\n%s q = {gamma: 3};\np.fwd = q;\nq.back = p;\n%s \"@P\";\n%s p;\n%s p.fwd.back.fwd.gamma;\n%s %s(p);\n%s \"@DONE\";\n", KwVar, KwVar, P, P, P, P, FnValues, P), []string{"beta:", "fwd:", "gamma:", "back:"}},
 		{"through-array", fmt.Sprintf("%s o = {list: [1, 2], delta: 4};\no.list[0] = o;\n%s \"@P\";\n%s o;\n%s o.list[0].delta;\n%s %s(o);\n%s \"@DONE\";\n", KwVar, P, P, P, P, FnValues, P), []string{"list:", "delta:"}},
+		{"deep-20", fmt.Sprintf("%s d = {leaf: 1};\n%s (%s i = 0; i < 20; i = i + 1) { d = {child: d, n: i}; }\n%s \"@P\";\n%s d;\n%s d.child.child.child.n;\n%s %s(d);\n%s \"@DONE\";\n", KwVar, KwFor, KwVar, P, P, P, P, FnKeys, P),
+			[]string{"leaf:1", "n:0", "n:19", "child:map[child:map[child:map[child:map[child:map[child:map[child:map[child:map[child:map[child:map[child:map[child:map[child:map[child:map[child:map[child:map[child:map[child:map[child:map[child:map[leaf:1]"}},
 		{"repl-echo", "", nil},
 	}
 	var out []*Case
@@ -731,7 +790,18 @@ func c12CheckRun(cs *Case, ex *C12Expect, run int, o Obs) *Violation {
 	if o.Res.Budget {
 		return mk("no-termination", "budget", "step budget exceeded")
 	}
-	ls := strings.Split(o.Stdout, "\n")
+	stdout := o.Stdout
+	repl := role == "repl-one-line"
+	if repl {
+		// cut the prompt before the first block and whatever follows the last newline
+		if i := strings.Index(stdout, "@B "); i >= 0 {
+			stdout = stdout[i:]
+		}
+		if j := strings.LastIndex(stdout, "\n"); j >= 0 {
+			stdout = stdout[:j+1]
+		}
+	}
+	ls := strings.Split(stdout, "\n")
 	p := 0
 	next := func() (string, bool) {
 		if p >= len(ls) {
@@ -831,13 +901,13 @@ func c12CheckRun(cs *Case, ex *C12Expect, run int, o Obs) *Violation {
 			return mk("output-truncated", sig, fmt.Sprintf("expected @T, got %q", l))
 		}
 		rest := strings.Join(ls[p:], "\n")
-		if o.FirstErr < 0 || o.ExitStatus() != 70 {
+		if o.FirstErr < 0 || (o.ExitStatus() != 70 && !repl) {
 			return mk("invalid-operation-accepted", sig, fmt.Sprintf("%s must be a runtime error; exit=%d stderr=%q stdout tail=%q", ex.MustFail, o.ExitStatus(), o.Stderr, rest))
 		}
 		if strings.Contains(rest, "@AFTER") || strings.Contains(rest, "@DONE") {
 			return mk("invalid-operation-accepted", sig, fmt.Sprintf("execution continued after %s: %q", ex.MustFail, rest))
 		}
-		if _, ln, ok := FirstDiagnostic(o.Stderr); ok && ln != ex.FailLine {
+		if _, ln, ok := FirstDiagnostic(o.Stderr); ok && ln != ex.FailLine && !repl {
 			return mk("early-diagnostic", sig, fmt.Sprintf("diagnostic names line %d, the failing operation is on line %d: %q", ln, ex.FailLine, firstLine(o.Stderr)))
 		}
 		return nil
